@@ -3,6 +3,7 @@ package main
 // Evaluation of value-producing SSA instructions and calls.
 
 import (
+	"sort"
 	"fmt"
 	"go/token"
 	"go/types"
@@ -935,6 +936,34 @@ func (x *Exec) callClosure(st *State, fr *Frame, ci *callInfo, cv *ClosureV, arg
 
 func fullName(fn *ssa.Function) string { return fn.String() }
 
+// callSiteNumber: 1-based position of the call at pos among the calls of callee in the root function (source order).
+func (x *Exec) callSiteNumber(callee *ssa.Function, pos token.Pos) int {
+	var ps []token.Pos
+	var visit func(f *ssa.Function)
+	visit = func(f *ssa.Function) {
+		for _, b := range f.Blocks {
+			for _, in := range b.Instrs {
+				if c, ok := in.(*ssa.Call); ok {
+					if sc := c.Common().StaticCallee(); sc == callee {
+						ps = append(ps, c.Pos())
+					}
+				}
+			}
+		}
+		for _, a := range f.AnonFuncs {
+			visit(a)
+		}
+	}
+	visit(x.rootFn)
+	sort.Slice(ps, func(i, j int) bool { return ps[i] < ps[j] })
+	for i, p := range ps {
+		if p == pos {
+			return i + 1
+		}
+	}
+	return 0
+}
+
 // coerceBufs: mutable byte buffers passed to library models become their current contents.
 func (x *Exec) coerceBufs(st *State, args []Val) []Val {
 	var out []Val
@@ -987,8 +1016,9 @@ func (x *Exec) callFunc(st *State, fr *Frame, ci *callInfo, fn *ssa.Function, ar
 					c.names["arg_"+sigp.At(i-off).Name()] = cv{V: a, T: sigp.At(i-off).Type()}
 				}
 			}
+			siteNo := x.callSiteNumber(fn, ci.pos)
 			for _, cl := range cls {
-				if !cl.appliesTo(x.root.Prop) {
+				if !cl.appliesTo(x.root.Prop) || (cl.Site != 0 && cl.Site != siteNo) {
 					continue
 				}
 				x.emit(st, "assert", x.oblName("at-call:"+shortFuncName(fn)+"/"+cl.Name), cl.Line, x.evalClause(c, cl))
